@@ -4,6 +4,7 @@ from architecture_simulator.uarch.memory.base_cache_memory_system import (
     BaseCacheMemorySystem,
 )
 from architecture_simulator.util.integer_manipulation import (
+    ByteOffsetError,
     byte_into_block,
     halfword_into_block,
     word_into_block,
@@ -120,6 +121,9 @@ class WriteThroughMemorySystem(BaseCacheMemorySystem):
         if block_values is not None:
             block_values = halfword_into_block(decoded_address, block_values, value)
             self.cache.write_block(decoded_address, block_values)
+        elif decoded_address.byte_offset > 2:
+            # a write miss must reject a store that crosses a word boundary just like a write hit does
+            raise ByteOffsetError(decoded_address.byte_offset, 2)
         self.memory.write_halfword(address, value)
 
     def write_word(
@@ -155,6 +159,9 @@ class WriteThroughMemorySystem(BaseCacheMemorySystem):
         if block_values is not None:
             block_values = word_into_block(decoded_address, block_values, value)
             self.cache.write_block(decoded_address, block_values)
+        elif decoded_address.byte_offset != 0:
+            # a write miss must reject a store that crosses a word boundary just like a write hit does
+            raise ByteOffsetError(decoded_address.byte_offset, 0)
         self.memory.write_word(address, value)
 
     def _read_block(self, decoded_address: DecodedAddress) -> tuple[list[UInt32], bool]:
